@@ -457,6 +457,10 @@ func c07(c *an.Ctx) {
 		}
 	})
 
+	c.Check("R-BOOL", "RunPollLoop decision table: rows events of the configured database are delivered (decoded, or as update{table, err}); only 'no descriptor' / 'database closed' and foreign databases are skipped; a table-map event with an unseen table or a changed id drops the column map", 3, func(o *an.O) {
+		rulePollLoopTable(c, o)
+	})
+
 	c.Check("R-TABLE", "parseBinlogRowsEvent: WRITE -> after only, UPDATE -> (rows[i], rows[i+1]) behind the even-length test, DELETE -> before only; unknown kinds are errors", 4, func(o *an.O) {
 		// Evaluated on the SSA form (helpers inlined): for each event kind the control
 		// flow is explored with the event-type comparisons fixed; the delta literals
